@@ -23,6 +23,7 @@ CLASSES = [
     "dist_roundtrip",
     "coord_roundtrip",
     "coord_roundtrip_special",
+    "from_3d_direct",
     "mean",
 ]
 
@@ -343,6 +344,39 @@ class C14(Check):
                 bad("from_3d:single-shape", dict(shape=one.data.shape))
             out.append(result(HELD, cls=cls, counters=dict(coord_roundtrip_evals=2 * len(ra)),
                               sample=dict(cls=cls, n=len(ra), first=[ra[0], dec[0]])))
+            return out
+
+        if cls == "from_3d_direct":
+            # hand-made vectors with exact zeros, negative zeros, subnormals and any norm;
+            # reference: ra = atan2(y, x) mod 2pi, dec = atan2(z, hypot(x, y)) in longdouble
+            vals = np.array([0.0, -0.0, 1.0, -1.0, 5e-324, -5e-324, 1e-300, -1e-300, 0.5, -0.5, 3.0, 1e-17, -1e-17])
+            grid = np.array(np.meshgrid(vals, vals, vals)).reshape(3, -1).T
+            rnd = rng.normal(size=(n // 20, 3)) * 10.0 ** rng.uniform(-3, 3, (n // 20, 1))
+            zero_one = rnd.copy()
+            zero_one[np.arange(len(rnd)), rng.integers(0, 3, len(rnd))] = rng.choice([0.0, -0.0], len(rnd))
+            vec = np.concatenate([grid, rnd, zero_one])
+            norm = np.sqrt((vec.astype(np.longdouble) ** 2).sum(axis=1))
+            vec = vec[np.asarray(norm, dtype=float) > 1e-150]  # the zero vector has no direction
+            got = AngularCoordinates.from_3d(vec)
+            v = vec.astype(np.longdouble)
+            ref_ra = np.arctan2(v[:, 1], v[:, 0]) % (2 * sphere.PI)
+            ref_dec = np.arctan2(v[:, 2], np.sqrt(v[:, 0] ** 2 + v[:, 1] ** 2))
+            ok_fin = np.isfinite(got.ra) & np.isfinite(got.dec)
+            if not ok_fin.all():
+                j = int(np.flatnonzero(~ok_fin)[0])
+                bad("from_3d:non-finite", dict(vec=vec[j].tolist(), got=got.data[j].tolist()))
+            if np.any(got.ra < 0) or np.any(got.ra >= 2 * np.pi):
+                j = int(np.flatnonzero((got.ra < 0) | (got.ra >= 2 * np.pi))[0])
+                bad("from_3d:ra-out-of-range", dict(vec=vec[j].tolist(), ra=got.ra[j]))
+            sep = sphere.separation(ref_ra, ref_dec, got.ra, got.dec).astype(float)
+            bound = from3d_bound(np.asarray(ref_ra, dtype=float), np.asarray(ref_dec, dtype=float))
+            worst = np.where(ok_fin, sep / bound, 0)
+            if np.any(worst > 1):
+                j = int(np.argmax(worst))
+                bad("from_3d:wrong-direction", dict(vec=vec[j].tolist(), got=got.data[j].tolist(),
+                                                    want=[float(ref_ra[j]), float(ref_dec[j])], sep=sep[j], bound=bound[j]))
+            out.append(result(HELD, cls=cls, counters=dict(coord_roundtrip_evals=len(vec), from3d_direct_evals=len(vec)),
+                              sample=dict(cls=cls, n=len(vec), first=vec[0].tolist())))
             return out
 
         if cls == "mean":
